@@ -1602,8 +1602,13 @@ class Server:
         return await self.stor(connection, rest, "ab")
 
     async def rest(self, connection, rest):
-        if rest.isascii() and rest.isdigit():
-            connection.restart_offset = int(rest)
+        try:
+            # int() refuses digit strings beyond sys.get_int_max_str_digits()
+            offset = int(rest) if rest.isascii() and rest.isdigit() else None
+        except ValueError:
+            offset = None
+        if offset is not None:
+            connection.restart_offset = offset
             connection.response("350", f"restarting at {rest}")
         else:
             connection.restart_offset = 0
